@@ -87,6 +87,9 @@ func Run(prop, tier string) int {
 			b := cfg.Deadline / 3
 			gs, gv := genesisRTAll(prop, tier, b)
 			sum.Clauses["genesis_round_trips(state exported, fresh application started from the export, 2 more blocks)"] = gs.Clauses["genesis_round_trips"]
+			if n := gs.Clauses["long_history_chains"]; n > 0 {
+				sum.Clauses["long_history_chains(root R20: a thousand blocks old; fixed linear traces, every block judged)"] = n
+			}
 			if n := gs.Clauses["state_not_importable"]; n > 0 {
 				sum.Clauses["genesis_round_trips_where_the_export_could_not_be_imported(not judged)"] = n
 			}
